@@ -284,6 +284,9 @@ namespace hgraph
                     {
                         return time_series_schema_equivalent(bound, concrete);
                     }
+                    // As in ts_pattern_match: a constrained schema variable
+                    // (TSB[~S: A | B]) only binds a bundle its list accepts.
+                    if (!ts_allowed_by_constraints(pattern, concrete)) { return false; }
                     map.bind_ts(pattern.name, concrete);
                     return true;
                 }
